@@ -16,7 +16,7 @@ import (
 
 const ipDir = "reader/logql/logql_transpiler_v2/internal_planner/"
 
-func exprText(fset *token.FileSet, e ast.Node) string {
+func ipExprText(fset *token.FileSet, e ast.Node) string {
 	var b bytes.Buffer
 	printer.Fprint(&b, fset, e)
 	return strings.Join(strings.Fields(b.String()), " ")
@@ -27,7 +27,7 @@ func intCompared(fset *token.FileSet, f *ast.File, lhs string, op token.Token) (
 	res, found := "", false
 	ast.Inspect(f, func(n ast.Node) bool {
 		be, ok := n.(*ast.BinaryExpr)
-		if !ok || be.Op != op || exprText(fset, be.X) != lhs {
+		if !ok || be.Op != op || ipExprText(fset, be.X) != lhs {
 			return true
 		}
 		if bl, ok := be.Y.(*ast.BasicLit); ok && bl.Kind == token.INT {
@@ -46,7 +46,7 @@ func switchCases(fset *token.FileSet, fn *ast.FuncDecl, tag string) ([]string, m
 	found := false
 	ast.Inspect(fn.Body, func(n ast.Node) bool {
 		sw, ok := n.(*ast.SwitchStmt)
-		if !ok || found || sw.Tag == nil || exprText(fset, sw.Tag) != tag {
+		if !ok || found || sw.Tag == nil || ipExprText(fset, sw.Tag) != tag {
 			return true
 		}
 		found = true
@@ -68,13 +68,13 @@ func switchCases(fset *token.FileSet, fn *ast.FuncDecl, tag string) ([]string, m
 func firstIfCond(fset *token.FileSet, stmts []ast.Stmt) (string, bool) {
 	for _, s := range stmts {
 		if is, ok := s.(*ast.IfStmt); ok {
-			return exprText(fset, is.Cond), true
+			return ipExprText(fset, is.Cond), true
 		}
 	}
 	return "", false
 }
 
-func leanStrList(xs []string) string {
+func ipLeanStrList(xs []string) string {
 	q := make([]string, len(xs))
 	for i, x := range xs {
 		q[i] = leanStr(x)
@@ -118,8 +118,8 @@ func init() {
 		emit := ""
 		ast.Inspect(f, func(n ast.Node) bool {
 			is, ok := n.(*ast.IfStmt)
-			if ok && strings.HasPrefix(exprText(fset, is.Cond), "v.values[i+1]") {
-				emit = exprText(fset, is.Cond)
+			if ok && strings.HasPrefix(ipExprText(fset, is.Cond), "v.values[i+1]") {
+				emit = ipExprText(fset, is.Cond)
 				return false
 			}
 			return true
@@ -147,7 +147,7 @@ func init() {
 			if !ok {
 				return "", fmt.Errorf("switch %s not found in %s.addValue", a.tag, a.recv)
 			}
-			fmt.Fprintf(&sb, "def %sCases : List String := %s\n", a.name, leanStrList(names))
+			fmt.Fprintf(&sb, "def %sCases : List String := %s\n", a.name, ipLeanStrList(names))
 			bound, ok := firstIfCond(fset, fd.Body.List)
 			if !ok {
 				bound = ""
@@ -168,11 +168,11 @@ func init() {
 		var conds []string
 		ast.Inspect(f, func(n ast.Node) bool {
 			if is, ok := n.(*ast.IfStmt); ok {
-				conds = append(conds, exprText(fset, is.Cond))
+				conds = append(conds, ipExprText(fset, is.Cond))
 			}
 			return true
 		})
-		fmt.Fprintf(&sb, "/-- the tests of LimitPlanner in source order -/\ndef limitConds : List String := %s\n", leanStrList(conds))
+		fmt.Fprintf(&sb, "/-- the tests of LimitPlanner in source order -/\ndef limitConds : List String := %s\n", ipLeanStrList(conds))
 
 		// hash
 		fset, f, err = parseFile(ipDir + "hash.go")
@@ -186,8 +186,8 @@ func init() {
 		hashed := ""
 		ast.Inspect(fd.Body, func(n ast.Node) bool {
 			as, ok := n.(*ast.AssignStmt)
-			if ok && len(as.Lhs) == 1 && exprText(fset, as.Lhs[0]) == "a" && len(as.Rhs) == 1 {
-				hashed = exprText(fset, as.Rhs[0])
+			if ok && len(as.Lhs) == 1 && ipExprText(fset, as.Lhs[0]) == "a" && len(as.Rhs) == 1 {
+				hashed = ipExprText(fset, as.Rhs[0])
 				return false
 			}
 			return true
@@ -214,7 +214,7 @@ func init() {
 			}
 			for _, st := range rs.Body.List {
 				if is, ok := st.(*ast.IfStmt); ok {
-					bconds = append(bconds, exprText(fset, is.Cond))
+					bconds = append(bconds, ipExprText(fset, is.Cond))
 				}
 			}
 			return false
@@ -222,7 +222,7 @@ func init() {
 		if len(bconds) == 0 {
 			return "", fmt.Errorf("the pipeline loop of GetBreakpoint not found")
 		}
-		fmt.Fprintf(&sb, "/-- the tests under which GetBreakpoint returns the index of a pipeline element -/\ndef breakConds : List String := %s\n", leanStrList(bconds))
+		fmt.Fprintf(&sb, "/-- the tests under which GetBreakpoint returns the index of a pipeline element -/\ndef breakConds : List String := %s\n", ipLeanStrList(bconds))
 		sb.WriteString("end Qryn.Gen.InternalPlanner\n")
 		return sb.String(), nil
 	})
